@@ -71,6 +71,8 @@ class C14(PropBase):
         lk = view.lookup()
         mods = [m["name"] for m in world["modules"]]
         env = self.base_env(rng, fault_free=not sw)
+        if rng.random() < 0.3:
+            env["json"] = "stdlib"  # the supported installation without orjson
         pool = []
         for t in gen.root_types(view, rng, cfg, rng.randint(1, 4)):
             pairs = [gen.gen_pair(rng, t, lk, cfg) for _ in range(rng.randint(1, 3))]
@@ -324,7 +326,8 @@ class C14(PropBase):
                 is_lit = True
             except Exception:
                 is_lit = False
-            if not is_lit and (out.value != s or type(out.value) is not str):
+            if not is_lit and (out.value != s or type(out.value) is not str) and not _configured_decoder_says(s, out.value):
+                # (the stdlib decoder of the orjson-less installation reads NaN / Infinity: "what a JSON decoder returns")
                 sess.violation("load-plain-text-changed", i, {"s": s[:100], "got": repr(out.value)[:120]}, sig=f"load-plain-text-changed:{step['fn']}")
         elif op == "reuse":
             first, second, ref, c_first, c_ref1 = sess._c14
